@@ -132,9 +132,20 @@ func (w *walkCtx) advValue(it *simdjson.Iter, t simdjson.Type) (*MV, error) {
 		}
 		m := &MV{K: KArray, Arr: []*MV{}}
 		ai := arr.Iter()
+		if ft := arr.FirstType(); ft != ai.PeekNext() {
+			return nil, fmt.Errorf("Array.FirstType says %v, PeekNext on a fresh Array.Iter says %v", ft, ai.PeekNext())
+		}
 		for {
+			announced := ai.PeekNext()
 			et := ai.Advance()
+			if et != announced {
+				// PeekNext announces what Advance is about to return
+				return nil, fmt.Errorf("PeekNext announced %v, Advance then returned %v (array element #%d)", announced, et, len(m.Arr))
+			}
 			if et == simdjson.TypeNone {
+				if ai.Type() != simdjson.TypeNone {
+					return nil, fmt.Errorf("Advance returned no type at the end of an array but the iterator still reports %v", ai.Type())
+				}
 				break
 			}
 			v, err := w.advValue(&ai, et)
@@ -185,6 +196,9 @@ func WalkAdvance(pj *simdjson.ParsedJson) (roots []*MV, err error) {
 			}
 			t := it.Advance()
 			if t == simdjson.TypeNone {
+				if it.Type() != simdjson.TypeNone {
+					return fmt.Errorf("Advance returned no type after the last root but the iterator still reports %v", it.Type())
+				}
 				return nil
 			}
 			if t != simdjson.TypeRoot {
